@@ -1,7 +1,7 @@
 """C10 – property-statechart monitoring: complete, ordered, fail-fast, non-intrusive (DESIGN §4 C10)."""
 from ..common import import_sismic
 from ..gen import chart_digest, gen_chart
-from ..lockstep import Runner, first_difference, freeze, gen_script
+from ..lockstep import benign, Runner, first_difference, freeze, gen_script
 from ..probes import ticking_clock, Probes, make_val
 from .. import build
 
@@ -9,7 +9,7 @@ import_sismic()
 from sismic.interpreter import Interpreter  # noqa: E402
 from sismic.model import (BasicState, Event, CompoundState, FinalState, InternalEvent, MetaEvent,  # noqa: E402
                           Statechart, Transition)
-from sismic.exceptions import PropertyStatechartError  # noqa: E402
+from sismic.exceptions import ContractError, PropertyStatechartError  # noqa: E402
 
 PID = 'C10'
 LEVEL = 'exploration'
@@ -159,6 +159,10 @@ def run_case(acc, rnd, tier, case):
     ch = gen_chart(rnd, mode=rnd.choice((None, 'orth', 'history', 'queue')), p_send=0.5, p_state_send=0.2, p_notify=0.4,
                    contracts=True, p_contract=0.3, **T['gen'])
     script = gen_script(rnd, ch['events'], T['steps'])
+    if rnd.random() < 0.3:
+        for j in range(rnd.randint(1, 3)):
+            script.insert(rnd.randrange(len(script) + 1), ('queue_internal', rnd.choice(ch['events']), -10 - j))
+        acc.count('internal_events_queued_from_outside')
     valseed, p_true = rnd.random(), rnd.choice((0.5, 0.8, 1.0))
     names = KINDS + ['m0', 'm1', 'delayed event sent']
     wit = dict(chart=ch, script=script, p_true=p_true)
@@ -219,7 +223,13 @@ def run_case(acc, rnd, tier, case):
     k = 0
     for op in script:
         if op[0] != 'step':
+            n0 = len(pr.log)
             r.apply(op)
+            outside = [e for e in pr.log[n0:] if e[0] == 'M']
+            if outside:
+                acc.violation('C10:meta-event-outside-a-step', '%s delivered %r to the listeners although no step was under way and '
+                              'the statechart did nothing' % (op[0], outside[0][:2]), dict(wit, op=op))
+                return
             continue
         pr.stepno = k
         del rec[:]
@@ -231,6 +241,11 @@ def run_case(acc, rnd, tier, case):
         if o[0] == 'raise':
             if isinstance(r.last_error, PropertyStatechartError):
                 acc.violation('C10:never-final-property-raised', 'a property statechart that cannot become final raised', wit)
+                return
+            if not benign(r.last_error) and not isinstance(r.last_error, ContractError):
+                acc.violation('C10:unexpected-exception', 'step %d of the monitored run raised %s: %s (code, conditions and monitors of '
+                              'this case only call probes)' % (k, type(r.last_error).__name__, str(r.last_error)[:200].replace('\n', ' ')),
+                              dict(wit, step=k))
                 return
             meta_per_step.append(len([e for e in norm_log(pr.log) if e[0] == 'M']))
             break
@@ -378,7 +393,7 @@ def run_case(acc, rnd, tier, case):
         def HIT():
             cnt[0] += 1
             return cnt[0] == kth
-        it3.bind_property_statechart(failing_property(KINDS + ['m0', 'm1']),
+        lst3 = it3.bind_property_statechart(failing_property(KINDS + ['m0', 'm1']),
                                      interpreter_klass=lambda s, clock: Interpreter(s, clock=clock, initial_context={'HIT': HIT}))
         r3 = Runner(it3, tmap3, log=None)
         k3 = 0
@@ -414,6 +429,27 @@ def run_case(acc, rnd, tier, case):
         if not tail or tail[-1][0] != 'M' or nm != kth:
             acc.violation('C10:code-after-property-failure', 'after meta-event %d made the property final the monitored '
                           'statechart went on: log tail %r (meta-events seen %d)' % (kth, [x[:2] for x in tail[-4:]], nm), w)
+            return
+        # the failed monitor is taken off and the interpreter is used further: the remaining listeners go on receiving
+        it3.detach(lst3)
+        del pr3.log[:]
+
+        class StopNow(Exception):
+            pass
+
+        def stopper(m):         # (attached last: the call is cut right after 'step started' went round - the interrupted step may
+            raise StopNow()     #  have left anything behind, only the delivery is judged)
+        it3.attach(stopper)
+        try:
+            it3.execute_once()
+        except StopNow:
+            pass
+        except Exception:       # noqa
+            pass
+        acc.count('calls_after_a_failed_property')
+        if not any(e[0] == 'M' and e[1] == 'step started' for e in pr3.log):
+            acc.violation('C10:listeners-deaf-after-a-property-failure', "after a property statechart had failed (meta-event %d) and had "
+                          "been detached, the next execute_once delivered no 'step started' to the listener that is still attached" % kth, w)
             return
         acc.nontrivial((dg, kth), cls='failfast')
     # ---- (4) a listener / property statechart attached while a step is under way ------------------------------------
